@@ -7,10 +7,20 @@ Two sources, both read from the CURRENT working tree of replicat:
   the custom backend `vfy` (found through the namespace package), and of every sub-command built by `cli.make_main_parser`:
   dest, option strings, action class, `type` function, kind of default, mutual-exclusion groups; `Config` fields; whether
   `set_defaults(**defaults)` reaches each sub-parser;
-* the AST: the order of the calls in `main()` (`read_config` / `apply_known` / `apply_env` / `-r` override /
-  `load_backend` / backend config / `defaults` / `make_main_parser` / second parse / handler), the `popset`/`getset`
-  calls of `Config.apply_known` / `apply_env` (file key → field → validator, in order), the `_check_mutually_exclusive`
-  calls, and the validators used by `BaseBackendConfig`.
+* a symbolic execution of the source (tools/optflow.py; helper functions followed, objects identified by what CREATES them, not
+  by their names):
+  - `main()`: the steps `read_config` / `<Config>.apply_known` / `apply_env` / the `-r` override (a store to the config that
+    happens exactly when the CLI value is not None) / `load_backend(*cfg.repository)` / the backend config's `apply_known` /
+    `apply_env` / the layers of the `defaults=` mapping handed to `make_main_parser` in OVERRIDING order (`d = a.dict();
+    d.update(b.dict())`, `{**a.dict(), **b.dict()}`, `dict(a.dict(), **b.dict())`, `a.dict() | b.dict()` are one thing) / the
+    second parse / the handler coroutine.  The emitted order is the CANONICAL linearisation of the dependency order (two steps
+    commute unless one writes what the other reads or writes, `STEP_RW`), so reordering independent statements changes
+    nothing; an unmodelled store / method call on the config objects empties the list;
+  - `Config.apply_known` / `apply_env`, `BaseBackendConfig.*`: which key ends up in which field through which validator — the
+    store `self.<field> = V(<copy of the mapping>.pop(key))` that happens exactly when the key is present (KeyError ⇒ nothing),
+    however popset / getset / _validate_set are spelled or inlined; the `no-cache` shape; the `_check_mutually_exclusive`
+    calls.  Validators / type functions are known by their fully-qualified name, private ones also by BEHAVIOUR
+    (`classify_by_behaviour`), so renaming `_natural_number` or `_check_boolean` is harmless.
 
 Anything not recognised becomes `OptTy.other` / `OptCliKind.other` / a missing step, so that the well-formedness
 lemmas (`decide` over the table) stop compiling — never assumed silently.
@@ -21,6 +31,9 @@ import os
 import subprocess
 import sys
 from pathlib import Path
+
+sys.path.insert(0, str(Path(__file__).resolve().parent.parent))
+import optflow as F  # noqa: E402 — tools/optflow.py: symbolic execution of the source under test
 
 VERIF = Path(__file__).resolve().parent.parent.parent
 INTROSPECT = VERIF / 'harness' / 'impl' / 'c19_introspect.py'
@@ -131,11 +144,261 @@ def introspect(ctx):
     return json.loads(p.stdout)
 
 
-# ------------------------------------------------------------------ AST: config.py
+# ------------------------------------------------------------------ symbolic execution: config.py
+# validators by the fully-qualified name the symbolic execution resolves them to (however they are imported / spelled)
+TY_FQ = {
+    'replicat.utils.parse_repository': 'parseRepository', 'replicat.utils.config._check_natural_number': 'naturalNumberCfg',
+    'replicat.utils.config._check_boolean': 'checkBoolean', 'pathlib.Path': 'path', 'str.encode': 'strEncode',
+    'replicat.utils.config._read_bytes': 'readBytesCfg', 'replicat.utils.config._convert_log_level': 'convertLogLevel',
+    'replicat.utils.guess_type': 'guessType',
+}
+CFG_LANDMARKS = set(TY_FQ) | {'replicat.utils.config._check_mutually_exclusive', 'replicat.utils.config._get_environb',
+                              'replicat.utils.config.backend_env_option'}
+
+
+# ------------------------------------------------------------------ private validators recognised by BEHAVIOUR
+# `_natural_number`, `_read_bytes`, `_check_boolean`, … are private names: a rename must not turn an option into `.other`.
+# When a type / validator function of cli.py or config.py is not known by name it is executed symbolically and compared,
+# case by case, with what the model's functions do.  A function that does anything else stays `.other`.
+def _raises_value_error(ev):
+    v = ev.value
+    return F.callee_name(v.a[0] if v.op == 'call' else v) == 'ValueError'
+
+
+def _is_call_of(t, name, arg_ok):
+    return t.op == 'call' and t.a[0].op == 'g' and F.callee_name(t.a[0]) == name and len(t.a[1]) == 1 and not t.a[2] and arg_ok(t.a[1][0])
+
+
+def _no_effects(ex):
+    return not any(e.kind in ('setattr', 'setitem', 'delitem', 'delattr', 'unknown-stmt', 'yield') for e in ex.events) and not ex.loops
+
+
+def natural_number_of(ex, ret, is_arg):
+    """n = int(<arg>);  ValueError exactly when n < 1;  otherwise n"""
+    raises = [e for e in ex.events if e.kind == 'raise']
+    if len(raises) != 1 or not _raises_value_error(raises[0]) or not _no_effects(ex):
+        return False
+    if not _is_call_of(F.resolve(ret, F.Val()), 'int', is_arg):
+        return False
+    r = raises[0]
+    lts = [a for a in F.atoms(r.pc) if a.op == 'lt' and _is_call_of(a.a[0], 'int', is_arg) and F.is_k(a.a[1], 1)]
+    return len(lts) == 1 and len(F.atoms(r.pc)) == 1 and F.truth(r.pc, F.Val().set(lts[0], True)) is True \
+        and F.truth(r.pc, F.Val().set(lts[0], False)) is False
+
+
+def classify_by_behaviour(repo, fq):
+    """fully-qualified name of a function of replicat/utils/{cli,config}.py → OptTy constructor name, or None"""
+    mod, _, name = fq.rpartition('.')
+    if mod not in ('replicat.utils.cli', 'replicat.utils.config') or '.' in name or '<' in name:
+        return None
+    fn = repo.func(mod, name)
+    if fn is None or len(fn.node.args.args) != 1 or fn.node.args.kwonlyargs or fn.node.args.vararg or fn.node.args.kwarg:
+        return None
+    try:
+        ex = F.Exec(repo, inline=lambda t, ex: t.nested or t.module.fq == mod)
+        ret = ex.run(fn)
+    except F.Budget:
+        return None
+    V = F.mk('p', fn.node.args.args[0].arg)
+    raises = [e for e in ex.events if e.kind == 'raise']
+    none = F.Val()
+    r0 = F.resolve(ret, none)
+    in_cli = mod.endswith('.cli')
+
+    def is_v(t):
+        return t is V
+
+    # Path(v).read_bytes() / Path(v).expanduser().read_bytes()
+    if not raises and _no_effects(ex) and r0.op == 'call' and not r0.a[1] and not r0.a[2]:
+        sm = F.split_method(r0.a[0])
+        if sm is not None and sm[1] == 'read_bytes':
+            p = sm[0]
+            if _is_call_of(p, 'pathlib.Path', is_v):
+                return 'readBytesCli' if in_cli else None
+            if p.op == 'call' and not p.a[1] and not p.a[2] and F.split_method(p.a[0]) is not None and F.split_method(p.a[0])[1] == 'expanduser' \
+                    and _is_call_of(F.split_method(p.a[0])[0], 'pathlib.Path', is_v):
+                return None if in_cli else 'readBytesCfg'
+    if in_cli:
+        if natural_number_of(ex, ret, is_v):
+            return 'naturalNumberCli'
+        if natural_number_of(ex, ret, lambda t: t.op == 'call' and F.callee_name(t.a[0]) == 'replicat.utils.human_to_bytes'
+                             and list(t.a[1]) == [V] and not t.a[2]):
+            return 'rateLimit'
+        return None
+    if not _no_effects(ex) or not all(_raises_value_error(e) for e in raises):
+        return None
+    is_str = F.mk('truthy', F.mk('call', F.mk('g', 'isinstance'), (V, F.mk('g', 'str')), ()))
+    str_atoms = [a for a in F.atoms(*[e.pc for e in ex.events], ret) + F.phi_atoms(ret)
+                 if a.op == 'truthy' and a.a[0].op == 'call' and F.callee_name(a.a[0].a[0]) == 'isinstance'
+                 and list(a.a[0].a[1]) == [V, F.mk('g', 'str')]]
+    del is_str
+
+    def with_str(val, yes):
+        for a in str_atoms:
+            val.set(a, yes)
+        return val
+
+    def isinstance_atoms(of, ty):
+        return [a for a in F.atoms(*[e.pc for e in raises]) if a.op == 'truthy' and a.a[0].op == 'call'
+                and F.callee_name(a.a[0].a[0]) == 'isinstance' and len(a.a[0].a[1]) == 2 and F.callee_name(a.a[0].a[1][1]) == ty
+                and of(a.a[0].a[1][0])]
+    # _check_natural_number: str → int(v); other non-int → ValueError; < 1 → ValueError; the number
+    if str_atoms and len(raises) == 2:
+        ok = True
+        for s_ in (True, False):
+            base = with_str(F.Val(), s_)
+            num = F.resolve(ret, base)
+            if s_:
+                if not _is_call_of(num, 'int', is_v):
+                    ok = False
+                    break
+            elif num is not V:
+                ok = False
+                break
+            ints = isinstance_atoms(is_v, 'int')
+            lts = [a for a in F.atoms(*[F.resolve(F.AND(list(e.pc)), base) for e in raises]) if a.op == 'lt' and a.a[0] is num and F.is_k(a.a[1], 1)]
+            if len(lts) != 1 or (not s_ and len(ints) != 1):
+                ok = False
+                break
+            for is_int in ((True, False) if not s_ else (True,)):
+                for small in (True, False):
+                    val = with_str(F.Val(), s_).set(lts[0], small)
+                    for a in ints:
+                        val.set(a, is_int)
+                    fired = [e for e in raises if F.truth(e.pc, val) is True]
+                    undecided = [e for e in raises if F.truth(e.pc, val) is None]
+                    want = (not s_ and not is_int) or small
+                    if undecided or bool(fired) != want:
+                        ok = False
+        if ok:
+            return 'naturalNumberCfg'
+    # _check_boolean: str → guess_type(v); not a bool → ValueError; the value
+    if str_atoms and len(raises) == 1:
+        ok = True
+        for s_ in (True, False):
+            base = with_str(F.Val(), s_)
+            val_t = F.resolve(ret, base)
+            if s_:
+                if not (val_t.op == 'call' and F.callee_name(val_t.a[0]) == 'replicat.utils.guess_type' and list(val_t.a[1]) == [V] and not val_t.a[2]):
+                    ok = False
+                    break
+            elif val_t is not V:
+                ok = False
+                break
+            bools = [a for a in F.atoms(F.resolve(F.AND(list(raises[0].pc)), base)) if a.op == 'truthy' and a.a[0].op == 'call'
+                     and F.callee_name(a.a[0].a[0]) == 'isinstance' and list(a.a[0].a[1]) == [val_t, F.mk('g', 'bool')]]
+            if len(bools) != 1:
+                ok = False
+                break
+            for b in (True, False):
+                if F.truth(raises[0].pc, with_str(F.Val(), s_).set(bools[0], b)) is not (not b):
+                    ok = False
+        if ok:
+            return 'checkBoolean'
+    # _convert_log_level: {'fatal': logging.FATAL, …}[v.lower()], KeyError → ValueError
+    if len(raises) == 1 and r0.op == 'item' and r0.a[0].op == 'dict':
+        key = r0.a[1]
+        table = {F.kval(k): F.callee_name(v) for k, v in r0.a[0].a[0]}
+        want = {n: f'logging.{n.upper()}' for n in ('fatal', 'critical', 'error', 'warning', 'info', 'debug')}
+        excs = [a for a in F.atoms(raises[0].pc) if (a.a[0] if a.op == 'truthy' else a).op == 'exc']
+        if table == want and key.op == 'call' and F.split_method(key.a[0]) == (V, 'lower') and not key.a[1] and len(excs) == 1 \
+                and F.callee_name((excs[0].a[0] if excs[0].op == 'truthy' else excs[0]).a[2]) == 'KeyError' \
+                and F.truth(raises[0].pc, F.Val().set(excs[0], True)) is True and F.truth(raises[0].pc, F.Val().set(excs[0], False)) is False:
+            return 'convertLogLevel'
+    return None
+
+
+_BEHAVIOUR_CACHE = {}
+
+
+def ty_of(repo, fq, table):
+    """OptTy constructor for a type / validator function: by its known name, else by its behaviour, else `other`"""
+    if fq in table:
+        return table[fq]
+    if fq is None:
+        return 'other'
+    k = (str(repo.root), fq)
+    if k not in _BEHAVIOUR_CACHE:
+        try:
+            _BEHAVIOUR_CACHE[k] = classify_by_behaviour(repo, fq)
+        except Exception:  # noqa: BLE001 — an analysis failure means "not recognised"
+            _BEHAVIOUR_CACHE[k] = None
+    return _BEHAVIOUR_CACHE[k] or 'other'
+
+
+def _cfg_policy(target, ex):
+    """follow the methods of the config classes (popset / getset / _validate_set / anything extracted from them), closures,
+    and module-level helpers of config.py that are handed the config object itself; the other functions of config.py are
+    the validators and checks — their CALL is the fact (they are recognised by name or by behaviour, see `ty_of`)"""
+    if target.nested:
+        return True
+    if target.module.fq != 'replicat.utils.config' or target.fq in CFG_LANDMARKS:
+        return False
+    if target.cls is not None:
+        return True
+    args, kwargs = ex.call_args
+    return any(a.op == 'self' for a in list(args) + [v for _, v in kwargs])
+
+
+def _self_store(ev):
+    """an event that assigns an attribute of `self`: `self.f = v` or `setattr(self, 'f', v)` → (field term, value) or None"""
+    if ev.kind == 'setattr' and ev.obj.op == 'self':
+        return F.K(ev.name), ev.value
+    if ev.kind == 'call' and F.callee_name(ev.f) == 'setattr' and len(ev.args) == 3 and ev.args[0].op == 'self':
+        return ev.args[1], ev.args[2]
+    return None
+
+
+def _lookup_in(value, is_source):
+    """the value stored comes from a key lookup on a mapping: → (validator fq | None, lookup call / item term) or None.
+    Accepted: `V(lookup)` and `lookup`, where lookup is `<m>.pop(k[, d])`, `<m>.__getitem__(k)`, `<m>[k]`, `<m>.get(k[, d])`"""
+    validator = None
+    v = value
+    if v.op == 'call' and len(v.a[1]) == 1 and not v.a[2] and _as_lookup(v.a[1][0], is_source) is not None:
+        validator = F.callee_name(v.a[0]) or '?'
+        v = v.a[1][0]
+    lk = _as_lookup(v, is_source)
+    if lk is None:
+        return None
+    return validator, lk
+
+
+def _as_lookup(v, is_source):
+    """→ (mapping, key term, how, default | None)"""
+    sm = F.split_method(v.a[0]) if v.op == 'call' else None
+    if sm is not None and sm[1] in ('pop', '__getitem__', 'get') and 1 <= len(v.a[1]) <= 2 and not v.a[2]:
+        m = sm[0]
+        if is_source(m):
+            return m, v.a[1][0], sm[1], (v.a[1][1] if len(v.a[1]) == 2 else None)
+    if v.op == 'item' and is_source(v.a[0]):
+        return v.a[0], v.a[1], '__getitem__', None
+    return None
+
+
+def _keyerror_skips(ex, ev_lookup, ev_store):
+    """`present ⇒ set, absent ⇒ leave alone`, however it is written: the lookup happens inside a `try`; when its KeyError
+    handler catches, the store does not happen and nothing else does either (the handler has no effects); when it does not
+    catch, the store happens"""
+    tries = [c[1] for c in ev_lookup.ctx if c[0] == 'try']
+    for a in F.atoms(ev_store.pc):
+        t = a.a[0] if a.op == 'truthy' else a
+        if t.op != 'exc' or t.a[0] not in tries:
+            continue
+        if F.callee_name(t.a[2]) != 'KeyError':
+            continue
+        if F.truth(ev_store.pc, F.Val().set(a, True)) is not False or F.truth(ev_store.pc, F.Val().set(a, False)) is not True:
+            continue
+        in_handler = [e for e in ex.events if ('handler', t.a[0], t.a[1]) in e.ctx and e.kind not in ('return', 'continue', 'break')
+                      and not (e.kind == 'call' and (F.callee_name(e.f) or F.show(e.f)).split('.')[-2:-1] in (['logger'], ['logging']))]
+        if not in_handler:
+            return True
+    return False
+
+
 def config_ast(ctx):
+    repo = F.shared_repo(ctx.REPO)
     src = (ctx.REPO / 'replicat' / 'utils' / 'config.py').read_text()
     tree = ast.parse(src)
-    un = ctx.unparse
     ak = ctx.find_func(tree, 'Config', 'apply_known')
     ae = ctx.find_func(tree, 'Config', 'apply_env')
     ctx.fp('config.Config.apply_known', ak)
@@ -144,101 +407,206 @@ def config_ast(ctx):
     ctx.fp('config.BaseBackendConfig', ctx.find_func(tree, 'BaseBackendConfig'))
     ctx.fp('config.config_for_backend', ctx.find_func(tree, 'config_for_backend'))
     ctx.fp('config._check_mutually_exclusive', ctx.find_func(tree, '_check_mutually_exclusive'))
-    file_keys = []      # (key, field, kind, ty) in source order
-    mutex = []
+    file_keys, mutex, env = [], [], []      # (key, field, kind, ty) / [keys] / (var, field, ty), in evaluation order
     recognised = True
 
-    def popset_call(call):
-        # self.popset(remaining, 'key', validator, field='f')
-        if not (isinstance(call, ast.Call) and un(call.func) in ('self.popset', 'self.getset')):
-            return None
-        if len(call.args) < 2 or not isinstance(call.args[1], ast.Constant):
-            return None
-        key = call.args[1].value
-        val = un(call.args[2]) if len(call.args) > 2 else None
-        for k in call.keywords:
-            if k.arg == 'validator':
-                val = un(k.value)
-        field = None
-        for k in call.keywords:
-            if k.arg == 'field' and isinstance(k.value, ast.Constant):
-                field = k.value.value
-        return key, field, val, un(call.args[0])
+    def bad(what):
+        nonlocal recognised
+        recognised = False
+        ctx.notes['apply_known:unrecognised'] = what[:160]
 
-    for st in (ak.body if ak is not None else []):
-        if isinstance(st, ast.Expr) and isinstance(st.value, ast.Constant):
-            continue  # docstring
-        if isinstance(st, ast.Expr) and isinstance(st.value, ast.Call):
-            f = un(st.value.func)
-            if f == '_check_mutually_exclusive':
-                keys = [a.value for a in st.value.args[1:] if isinstance(a, ast.Constant)]
-                if len(keys) == len(st.value.args) - 1:
+    # ---- Config.apply_known(mapping): which key of the file ends up in which field, through which validator
+    f_ak = repo.func('replicat.utils.config', 'Config', 'apply_known')
+    if f_ak is None:
+        bad('Config.apply_known not found')
+    else:
+        ex = F.Exec(repo, inline=_cfg_policy)
+        params = [a.arg for a in f_ak.node.args.args]
+        ret = ex.run(f_ak)
+        mapping = F.mk('p', params[1]) if len(params) > 1 else None
+
+        def is_copy(t):
+            """a private copy of the argument: `mapping.copy()`, `dict(mapping)`, `{**mapping}`"""
+            if t.op == 'call' and t.a[0].op == 'attr' and t.a[0].a[1] == 'copy' and t.a[0].a[0] is mapping and not t.a[1]:
+                return True
+            if t.op == 'merge':
+                return [x for x in F.layers(t)] == [mapping]
+            return False
+        explained = set()
+        for ev in ex.events:
+            if ev.kind == 'call' and ev.fq() == 'replicat.utils.config._check_mutually_exclusive':
+                keys = [F.kval(a) for a in ev.args[1:]]
+                if ev.args and (ev.args[0] is mapping or is_copy(ev.args[0])) and all(isinstance(k, str) for k in keys) and not ev.kwargs \
+                        and F.truth(ev.pc, F.Val()) is True:
                     mutex.append(keys)
                 else:
-                    recognised = False
+                    bad('mutual-exclusion check of unknown shape: ' + repr(ev))
                 continue
-            pc = popset_call(st.value)
-            if pc is not None and f == 'self.popset' and pc[1] is not None:
-                file_keys.append((pc[0], pc[1], 'plain', TY_CFG.get(pc[2], 'other')))
+            st = _self_store(ev)
+            if st is None:
                 continue
-            if f.startswith(('logger.', 'logging.')):
+            field_t, value = st
+            field = F.kval(field_t)
+            if not isinstance(field, str):
+                bad('store to a computed field: ' + repr(ev))
                 continue
-            recognised = False
-            ctx.notes['apply_known:unrecognised'] = un(st)[:120]
-            continue
-        if isinstance(st, ast.Assign) and un(st) == 'remaining = mapping.copy()':
-            continue
-        if isinstance(st, ast.Return):
-            continue
-        if isinstance(st, ast.If):
-            # if _check_boolean(remaining.pop('no-cache', False)): self.cache_directory = None
-            t = st.test
-            ok = False
-            if (isinstance(t, ast.Call) and len(t.args) == 1 and isinstance(t.args[0], ast.Call)
-                    and un(t.args[0].func) == 'remaining.pop' and len(t.args[0].args) == 2
-                    and isinstance(t.args[0].args[0], ast.Constant) and un(t.args[0].args[1]) == 'False'
-                    and len(st.body) == 1 and not st.orelse and isinstance(st.body[0], ast.Assign)
-                    and un(st.body[0].value) == 'None' and un(st.body[0].targets[0]).startswith('self.')):
-                file_keys.append((t.args[0].args[0].value, un(st.body[0].targets[0])[5:], 'nullIfTrue', TY_CFG.get(un(t.func), 'other')))
-                ok = True
-            if not ok:
-                recognised = False
-                ctx.notes['apply_known:unrecognised'] = un(st)[:120]
-            continue
-        recognised = False
-        ctx.notes['apply_known:unrecognised'] = un(st)[:120]
+            got = _lookup_in(value, is_copy)
+            if got is not None:
+                validator, (m, key_t, how, default) = got
+                key = F.kval(key_t)
+                lookup_ev = next((e for e in ex.events if e.kind == 'call' and e.result is (value if validator is None else value.a[1][0])), None)
+                if isinstance(key, str) and how == 'pop' and default is None and lookup_ev is not None and _keyerror_skips(ex, lookup_ev, ev) \
+                        and _only_conditions(ev.pc, ('exc',)):
+                    file_keys.append((key, field, 'plain', ty_of(repo, validator, TY_FQ) if validator is not None else 'none'))
+                    explained.add(id(lookup_ev))
+                    continue
+                bad('file key of unknown shape: ' + repr(ev))
+                continue
+            # `if V(remaining.pop(key, False)): self.field = None`
+            if F.is_k(value, None):
+                hit = None
+                for c in F.atoms(ev.pc):
+                    if c.op == 'truthy' and c.a[0].op == 'call' and len(c.a[0].a[1]) == 1:
+                        lk = _as_lookup(c.a[0].a[1][0], is_copy)
+                        if lk is not None and lk[2] == 'pop' and F.is_k(lk[3], False) and isinstance(F.kval(lk[1]), str):
+                            hit = (c, F.callee_name(c.a[0].a[0]), F.kval(lk[1]), c.a[0].a[1][0])
+                if hit is not None and F.truth(ev.pc, F.Val().set(hit[0], True)) is True and F.truth(ev.pc, F.Val().set(hit[0], False)) is False:
+                    file_keys.append((hit[2], field, 'nullIfTrue', ty_of(repo, hit[1], TY_FQ)))
+                    explained.update(id(e) for e in ex.events if e.kind == 'call' and e.result is hit[3])
+                    continue
+            bad('store of unknown shape: ' + repr(ev))
+        # every removal from the copy must be one of the above; the copy (with the keys removed) is what is handed on
+        for ev in ex.events:
+            sm = F.split_method(ev.f) if ev.kind == 'call' else None
+            if sm is not None and sm[1] in ('pop', 'popitem', 'clear', '__delitem__') and (is_copy(sm[0]) or sm[0] is mapping) \
+                    and id(ev) not in explained:
+                bad('unexplained removal: ' + repr(ev))
+            if ev.kind in ('delitem', 'setitem') and (is_copy(ev.obj) or ev.obj is mapping):
+                bad('unexplained mutation: ' + repr(ev))
+            if ev.kind == 'raise':
+                bad('raise in apply_known: ' + repr(ev))
+            if ev.kind == 'unknown-stmt':
+                bad('statement not understood: ' + ast.unparse(ev.node)[:80])
+        if not (ret is not None and is_copy(ret)):
+            bad('apply_known does not return its private copy of the mapping: ' + F.show(ret))
 
-    env = []            # (var, field, ty)
-    for node in (ast.walk(ae) if ae is not None else []):
-        if isinstance(node, ast.Call):
-            pc = popset_call(node)
-            if pc is not None and un(node.func) == 'self.getset' and pc[3] == 'os.environ':
-                env.append((pc[0], pc[1], TY_CFG.get(pc[2], 'other')))
-            if un(node.func) == '_get_environb' and len(node.args) == 1 and isinstance(node.args[0], ast.Constant):
-                # self.<field> = _get_environb('VAR')
-                field = None
-                for a in ast.walk(ae):
-                    if isinstance(a, ast.Assign) and a.value is node and un(a.targets[0]).startswith('self.'):
-                        field = un(a.targets[0])[5:]
-                env.append((node.args[0].value, field, 'environb'))
-    # backend config: validators of BaseBackendConfig.apply_known / apply_env
-    bak = ctx.find_func(tree, 'BaseBackendConfig', 'apply_known')
-    bae = ctx.find_func(tree, 'BaseBackendConfig', 'apply_env')
-    bfile = benv = 'other'
-    for node in (ast.walk(bak) if bak is not None else []):
-        if isinstance(node, ast.Call) and un(node.func) == 'self.popset' and len(node.args) > 2:
-            bfile = TY_CFG.get(un(node.args[2]), 'other')
-    for node in (ast.walk(bae) if bae is not None else []):
-        if isinstance(node, ast.Call) and un(node.func) == 'self.getset' and len(node.args) > 2 and un(node.args[0]) == 'os.environ':
-            benv = TY_CFG.get(un(node.args[2]), 'other')
+    # ---- Config.apply_env(): environment variable → field
+    f_ae = repo.func('replicat.utils.config', 'Config', 'apply_env')
+    if f_ae is not None:
+        ex = F.Exec(repo, inline=_cfg_policy)
+        ex.run(f_ae)
+
+        def is_environ(t):
+            return t.op == 'g' and t.a[0] == 'os.environ'
+        for ev in ex.events:
+            st = _self_store(ev)
+            if st is None:
+                continue
+            field = F.kval(st[0])
+            value = st[1]
+            got = _lookup_in(value, is_environ)
+            if got is not None and isinstance(F.kval(got[1][1]), str):
+                env.append((F.kval(got[1][1]), field, ty_of(repo, got[0], TY_FQ) if got[0] is not None else 'none'))
+            elif value.op == 'call' and F.callee_name(value.a[0]) == 'replicat.utils.config._get_environb' and len(value.a[1]) == 1 \
+                    and isinstance(F.kval(value.a[1][0]), str):
+                env.append((F.kval(value.a[1][0]), field, 'environb'))
+            else:
+                env.append(('?', field, 'other'))
+
+    # ---- backend config: the ONE validator BaseBackendConfig.apply_known / apply_env use for every field
+    def backend_validator(method, is_source):
+        fn = repo.func('replicat.utils.config', 'BaseBackendConfig', method)
+        if fn is None:
+            return 'other'
+        ex = F.Exec(repo, inline=_cfg_policy)
+        ex.run(fn)
+        tys = set()
+        for ev in ex.events:
+            st = _self_store(ev)
+            if st is None:
+                continue
+            got = _lookup_in(st[1], is_source)
+            tys.add(ty_of(repo, got[0], TY_FQ) if got is not None and got[0] is not None else 'other')
+        return tys.pop() if len(tys) == 1 else 'other'
+    bfile = backend_validator('apply_known', lambda t: t.op == 'call' and t.a[0].op == 'attr' and t.a[0].a[1] == 'copy' or t.op == 'merge')
+    benv = backend_validator('apply_env', lambda t: t.op == 'g' and t.a[0] == 'os.environ')
     return file_keys, mutex, env, recognised, bfile, benv
 
 
-# ------------------------------------------------------------------ AST: __main__.main
+def _only_conditions(pc, ops):
+    """every atomic condition of the path condition is one of the given kinds (exception flow of the enclosing try) or decided"""
+    for a in F.atoms(pc):
+        t = a.a[0] if a.op == 'truthy' else a
+        if t.op in ops:
+            continue
+        if F.truth(a if a.op != 'truthy' else a.a[0], F.Val()) is not None:
+            continue
+        return False
+    return True
+
+
+# ------------------------------------------------------------------ symbolic execution: __main__.main
+STEP_ORDER = ['initialParse', 'readConfig', 'applyKnown', 'applyEnv', 'repoOverride', 'loadBackend', 'backendApplyKnown',
+              'backendApplyEnv', 'defaultsCfg', 'defaultsBackend', 'makeMainParser', 'secondParse', 'handler']
+# what a step reads / writes.  Two steps commute iff neither writes what the other reads or writes; the emitted order is the
+# canonical linearisation of the dependency order of the calls in main() — so moving `cfg.dict()` above `backend_cfg.apply_env()`
+# (independent) changes nothing, while swapping `apply_known` and `apply_env` (both write cfg) does.
+STEP_RW = {
+    'initialParse': (set(), {'args'}),
+    'readConfig': ({'args'}, {'fileopts'}),
+    'applyKnown': ({'fileopts'}, {'cfg', 'remaining'}),
+    'applyEnv': (set(), {'cfg'}),
+    'repoOverride': ({'args'}, {'cfg'}),
+    'loadBackend': ({'cfg'}, {'btype'}),
+    'backendApplyKnown': ({'remaining', 'btype'}, {'bcfg'}),
+    'backendApplyEnv': ({'btype'}, {'bcfg'}),
+    'defaultsCfg': ({'cfg'}, {'defaults'}),
+    'defaultsBackend': ({'bcfg'}, {'defaults'}),
+    'makeMainParser': ({'defaults', 'btype'}, {'parser'}),
+    'secondParse': ({'parser'}, {'args'}),
+    'handler': ({'args', 'btype', 'parser'}, set()),
+    'unmodelled': ({'args', 'cfg', 'bcfg'}, {'args', 'cfg', 'bcfg'}),
+}
+
+
+def _conflict(a, b):
+    ra, wa = STEP_RW[a]
+    rb, wb = STEP_RW[b]
+    return bool(wa & (rb | wb)) or bool(wb & ra)
+
+
+def canonical_order(seq):
+    """`seq`: step names in evaluation order → the canonical linear extension of their dependency order (conflicting steps
+    keep their relative order; among the steps that are ready the one that comes first in STEP_ORDER is taken)"""
+    n = len(seq)
+    preds = {j: {i for i in range(j) if _conflict(seq[i], seq[j])} for j in range(n)}
+    done, out = set(), []
+    while len(done) < n:
+        ready = [j for j in range(n) if j not in done and preds[j] <= done]
+        j = min(ready, key=lambda k: (STEP_ORDER.index(seq[k]) if seq[k] in STEP_ORDER else len(STEP_ORDER), k))
+        done.add(j)
+        out.append(seq[j])
+    return out
+
+
+def _main_policy(target, ex):
+    """follow the helpers of __main__.py; the command handler — the coroutine function main() hands to `asyncio.run`,
+    whatever its name — is not followed: its CALL is the last step"""
+    return target.nested or (target.module.fq == 'replicat.__main__' and not isinstance(target.node, ast.AsyncFunctionDef))
+
+
+def is_handler_call(ev, ex):
+    """a call of a coroutine function of __main__.py whose coroutine is then run (handed to a later call: `asyncio.run`,
+    `loop.run_until_complete`, …)"""
+    if not (ev.kind == 'call' and ev.f.op == 'fn' and not ev.inlined and ev.f.a[0].module.fq == 'replicat.__main__'
+            and isinstance(ev.f.a[0].node, ast.AsyncFunctionDef)):
+        return False
+    return any(e.kind == 'call' and e.id > ev.id and any(F.contains(a, ev.result) for a in e.args) for e in ex.events)
+
+
 def main_ast(ctx):
     src = (ctx.REPO / 'replicat' / '__main__.py').read_text()
     tree = ast.parse(src)
-    un = ctx.unparse
     mainf = ctx.find_func(tree, 'main')
     ctx.fp('__main__.main', mainf)
     ctx.fp('__main__._instantiate_backend', ctx.find_func(tree, '_instantiate_backend'))
@@ -247,79 +615,146 @@ def main_ast(ctx):
     tcli = ast.parse(src_cli)
     ctx.fp('cli.make_main_parser', ctx.find_func(tcli, 'make_main_parser'))
     ctx.fp('cli.parser_for_backend', ctx.find_func(tcli, 'parser_for_backend'))
-    if mainf is None:
+    repo = F.shared_repo(ctx.REPO)
+    fmain = repo.func('replicat.__main__', 'main')
+    if fmain is None:
         return [], [], False
-    # names of the local variables
-    names = {'cfg': None, 'bcfg': None, 'bcfg_type': None, 'args': None, 'defaults': None, 'parser': None}
-    assigns = [n for n in ast.walk(mainf) if isinstance(n, ast.Assign)]
-    assigns.sort(key=lambda n: (n.lineno, n.col_offset))
-    for a in assigns:
-        v = un(a.value)
-        t = a.targets[0]
-        if v == 'config.Config()' and isinstance(t, ast.Name):
-            names['cfg'] = t.id
-        if isinstance(a.value, ast.Call) and un(a.value.func) == 'config.config_for_backend' and isinstance(t, ast.Name):
-            names['bcfg_type'] = t.id
-        if isinstance(a.value, ast.Call) and names['bcfg_type'] and un(a.value.func) == names['bcfg_type'] and isinstance(t, ast.Name):
-            names['bcfg'] = t.id
-        if isinstance(a.value, ast.Call) and un(a.value.func) == 'cli.initial_parser.parse_known_args':
-            if isinstance(t, ast.Tuple) and isinstance(t.elts[0], ast.Name):
-                names['args'] = t.elts[0].id
-        if names['cfg'] and v == f"{names['cfg']}.dict()" and isinstance(t, ast.Name):
-            names['defaults'] = t.id
-        if isinstance(a.value, ast.Call) and un(a.value.func) == 'cli.make_main_parser' and isinstance(t, ast.Name):
-            names['parser'] = t.id
-    cfg, bcfg, args, dfl, parser = names['cfg'], names['bcfg'], names['args'], names['defaults'], names['parser']
-    events = []      # (lineno, col, step)
+    ex = F.Exec(repo, inline=_main_policy)
+    ex.run(fmain)
+    none = F.Val()
+    # ---- the objects: found by what CREATES them, whatever they are called and wherever that happens
+    args = cfg = bcfg = btype = parser = None
+    found = []          # (event id, step)
     early = []
     ns_reused = False
-    for node in ast.walk(mainf):
-        pos = (getattr(node, 'lineno', 0), getattr(node, 'col_offset', 0))
-        if isinstance(node, ast.Call):
-            f = un(node.func)
-            if f == 'cli.initial_parser.parse_known_args':
-                events.append((*pos, 'initialParse'))
-            elif f == 'config.read_config':
-                events.append((*pos, 'readConfig'))
-            elif cfg and f == f'{cfg}.apply_known':
-                events.append((*pos, 'applyKnown'))
-            elif cfg and f == f'{cfg}.apply_env':
-                events.append((*pos, 'applyEnv'))
-            elif f == 'utils.load_backend' and cfg and [un(a) for a in node.args] == [f'*{cfg}.repository']:
-                events.append((*pos, 'loadBackend'))
-            elif bcfg and f == f'{bcfg}.apply_known':
-                events.append((*pos, 'backendApplyKnown'))
-            elif bcfg and f == f'{bcfg}.apply_env':
-                events.append((*pos, 'backendApplyEnv'))
-            elif cfg and f == f'{cfg}.dict':
-                events.append((*pos, 'defaultsCfg'))
-            elif dfl and bcfg and f == f'{dfl}.update' and [un(a) for a in node.args] == [f'{bcfg}.dict()']:
-                events.append((*pos, 'defaultsBackend'))
-            elif f == 'cli.make_main_parser' and dfl and any(k.arg == 'defaults' and un(k.value) == dfl for k in node.keywords):
-                events.append((*pos, 'makeMainParser'))
-            elif parser and f == f'{parser}.parse_known_args':
-                events.append((*pos, 'secondParse'))
-                ns_reused = any(k.arg == 'namespace' and un(k.value) == args for k in node.keywords)
-            elif f == 'asyncio.run' and node.args and '_cmd_handler(' in un(node.args[0]):
-                events.append((*pos, 'handler'))
-        if isinstance(node, ast.If) and cfg and args:
-            # if args.X is not None: cfg.X = args.X
-            t = un(node.test)
-            for st in node.body:
-                if isinstance(st, ast.Assign) and len(st.targets) == 1:
-                    tg, v = un(st.targets[0]), un(st.value)
-                    if tg.startswith(cfg + '.') and v == f'{args}.{tg[len(cfg) + 1:]}' and t == f'{v} is not None' and not node.orelse:
-                        events.append((st.lineno, st.col_offset, 'repoOverride'))
-                        early.append(tg[len(cfg) + 1:])
-    events.sort()
-    steps = [e[2] for e in events]
-    return steps, early, ns_reused
+    dict_calls = {}     # result term of `<cfg>.dict()` / `<bcfg>.dict()` -> (event id, which)
+    notes = []
+
+    for ev in ex.events:
+        if ev.kind == 'call':
+            fq = ev.fq()
+            recv_pk = F.method_call(ev, 'parse_known_args')
+            if recv_pk is not None and F.callee_name(recv_pk) == 'replicat.utils.cli.initial_parser':
+                found.append((ev.id, 'initialParse'))
+                args = ex.item(ev.result, F.K(0))
+                continue
+            if fq == 'replicat.utils.config.Config':
+                cfg = ev.result
+                continue
+            if fq == 'replicat.utils.config.read_config':
+                found.append((ev.id, 'readConfig'))
+                continue
+            if fq == 'replicat.utils.load_backend':
+                a = ev.args
+                rep = F.mk('attr', cfg, 'repository') if cfg is not None else None
+                if rep is not None and (list(a) == [F.mk('star', rep)] or list(a) == [ex.item(rep, F.K(0)), ex.item(rep, F.K(1))]) and not ev.kwargs:
+                    found.append((ev.id, 'loadBackend'))
+                    btype = ex.item(ev.result, F.K(0))
+                else:
+                    notes.append('load_backend is not called on cfg.repository')
+                continue
+            if fq == 'replicat.utils.config.config_for_backend':
+                continue
+            if ev.f.op == 'call' and F.callee_name(ev.f.a[0]) == 'replicat.utils.config.config_for_backend' and not ev.args and not ev.kwargs:
+                bcfg = ev.result      # instance of the class config_for_backend made
+                continue
+            if fq == 'replicat.utils.cli.make_main_parser':
+                d = ev.arg(None, 'defaults')
+                lay = F.layers(F.resolve(d, none)) if d is not None else []
+                kinds = []
+                for l in lay:
+                    k = dict_calls.get(id(l))
+                    kinds.append(k)
+                if lay and all(k is not None for k in kinds):
+                    # the layers of the mapping, in overriding order, positioned where they were READ from the config objects
+                    prev = None
+                    for eid, which in kinds:
+                        found.append(((eid, prev) if prev is not None else eid, which))
+                        prev = eid
+                else:
+                    notes.append('defaults= of make_main_parser is not built from <cfg>.dict() / <backend cfg>.dict(): ' + F.show(d)[:120])
+                found.append((ev.id, 'makeMainParser'))
+                parser = ev.result
+                continue
+            if recv_pk is not None and parser is not None and F.resolve(recv_pk, none) is parser:
+                found.append((ev.id, 'secondParse'))
+                ns = ev.arg(1, 'namespace')
+                ns_reused = ns is not None and args is not None and F.resolve(ns, none) is args
+                continue
+            if is_handler_call(ev, ex):
+                found.append((ev.id, 'handler'))
+                continue
+            for meth, on_cfg, on_bcfg in (('apply_known', 'applyKnown', 'backendApplyKnown'), ('apply_env', 'applyEnv', 'backendApplyEnv')):
+                recv = F.method_call(ev, meth)
+                if recv is not None:
+                    r = F.resolve(recv, none)
+                    if cfg is not None and r is cfg:
+                        found.append((ev.id, on_cfg))
+                    elif bcfg is not None and r is bcfg:
+                        found.append((ev.id, on_bcfg))
+            recv = F.method_call(ev, 'dict')
+            if recv is not None and not ev.args and not ev.kwargs:
+                r = F.resolve(recv, none)
+                if cfg is not None and r is cfg:
+                    dict_calls[id(ev.result)] = (ev.id, 'defaultsCfg')
+                elif bcfg is not None and r is bcfg:
+                    dict_calls[id(ev.result)] = (ev.id, 'defaultsBackend')
+                continue
+            # any other method of the config objects would be an unmodelled step
+            sm = F.split_method(ev.f)
+            if sm is not None and sm[1] not in ('apply_known', 'apply_env', 'dict') and \
+                    any(o is not None and F.resolve(sm[0], none) is o for o in (cfg, bcfg)):
+                found.append((ev.id, 'unmodelled'))
+                notes.append('unmodelled call on a config object: ' + F.show(ev.f)[:80])
+        elif ev.kind == 'setattr':
+            tgt = F.resolve(ev.obj, none)
+            if cfg is not None and tgt is cfg and args is not None:
+                # `if args.X is not None: cfg.X = args.X` in any spelling: the store happens exactly when args.X is not None
+                src_t = F.mk('attr', args, ev.name)
+                isnone = F.mk('isnone', src_t)
+                v_set = F.Val().set(isnone, False)
+                if F.resolve(ev.value, v_set) is src_t and F.truth(ev.pc, F.Val().set(isnone, True)) is False \
+                        and F.truth(ev.pc, v_set) is not False:
+                    found.append((ev.id, 'repoOverride'))
+                    early.append(ev.name)
+                else:
+                    found.append((ev.id, 'unmodelled'))
+                    notes.append(f'unmodelled store to cfg.{ev.name}')
+            elif any(o is not None and tgt is o for o in (bcfg, args)):
+                found.append((ev.id, 'unmodelled'))
+                notes.append(f'unmodelled store to .{ev.name} of the backend config / namespace')
+    # ---- order: evaluation order, except that the layers of `defaults` are ordered by OVERRIDING order
+    keyed = []
+    for pos, step in found:
+        if isinstance(pos, tuple):
+            # a later layer: not before the previous layer
+            keyed.append((max(pos[0], pos[1] + 0.5), step))
+        else:
+            keyed.append((pos, step))
+    keyed.sort(key=lambda x: x[0])
+    seq = [s for _, s in keyed]
+    if 'unmodelled' in seq:
+        ctx.notes['options:main'] = '; '.join(notes)[:300]
+        return [], early, ns_reused
+    if notes:
+        ctx.notes['options:main'] = '; '.join(notes)[:300]
+    return canonical_order(seq), early, ns_reused
 
 
 def section(ctx):
     info = introspect(ctx)
-    file_keys, mutex, envs, ak_ok, bfile_ty, benv_ty = config_ast(ctx)
-    steps, early, ns_reused = main_ast(ctx)
+    try:
+        cfg_facts = config_ast(ctx)
+    except Exception as e:  # noqa: BLE001 — an analysis failure is "not recognised" (the lemmas over the table then fail), not a crash
+        ctx.notes['apply_known:unrecognised'] = f'analysis failed: {e!r}'[:200]
+        cfg_facts = ([], [], [], False, 'other', 'other')
+    ctx.c19_shared = {'info': info, 'config': cfg_facts, 'ty_of': ty_of, 'TY_CLI': TY_CLI, 'classify': classify_by_behaviour}        # reused by tools/sections/20_sizelit.py in this run
+    file_keys, mutex, envs, ak_ok, bfile_ty, benv_ty = cfg_facts
+    try:
+        steps, early, ns_reused = main_ast(ctx)
+    except Exception as e:  # noqa: BLE001
+        ctx.notes['options:main'] = f'analysis failed: {e!r}'[:200]
+        steps, early, ns_reused = [], [], False
     emit = ctx.emit
     for line in PRELUDE.strip('\n').split('\n'):
         emit(line)
@@ -336,9 +771,11 @@ def section(ctx):
             group_ids[k] = len(group_ids)
         return f'some {group_ids[k]}'
 
+    brepo = F.shared_repo(ctx.REPO)
+
     def clivar(a):
         cls = a['cls']
-        ty = TY_CLI.get(a['type'], 'other')
+        ty = ty_of(brepo, a['type'], TY_CLI)
         if cls == '_StoreAction' and a['nargs'] is None and a['flags']:
             kind = 'typed'
         elif cls == '_StoreConstAction' and a['const_repr'] == 'None':
@@ -430,7 +867,7 @@ def section(ctx):
             if len(f['actions']) != 1:
                 cli_tys.add('other')
             for a in f['actions']:
-                cli_tys.add(TY_CLI.get(a['type'], 'other') if a['cls'] == '_StoreAction' and a['nargs'] is None else 'other')
+                cli_tys.add(ty_of(brepo, a['type'], TY_CLI) if a['cls'] == '_StoreAction' and a['nargs'] is None else 'other')
     backend_cli_ty = cli_tys.pop() if len(cli_tys) == 1 else 'other'
     emit(f'def optBackendCliTy : OptTy := .{backend_cli_ty}')
     emit(f'def optBackendFileTy : OptTy := .{bfile_ty}')
